@@ -35,7 +35,7 @@ struct RunInfo {
 
 fn valid_connection(rng: &mut Rng) -> (Vec<u8>, usize) {
     let big_skip = rng.chance(1, 25);
-    let buffer = if big_skip { 70_000 + rng.below(100_000) } else { *rng.pick(&[24usize, 32, 64, 128, 500, 8192, 8192]) };
+    let buffer = if big_skip { 70_000 + rng.below(100_000) } else { *rng.pick(&[24usize, 32, 64, 128, 500, 8192, 8192, 0, 10, 27, 100, 1001]) };
     let eff = buffer.max(24);
     let mut bytes = Vec::new();
     for i in 0..1 + rng.below(2) {
